@@ -5,6 +5,7 @@ import (
 	"go/constant"
 	"go/token"
 	"go/types"
+	"strings"
 	"sync"
 
 	"golang.org/x/tools/go/ssa"
@@ -179,6 +180,11 @@ func (e *Exec) globalObj(g *ssa.Global) *Object {
 	}
 	o := e.newObj(et, v)
 	o.Name = g.String()
+	// package-level variables of the library itself (not of the harness files) take part in the
+	// happens-before check: shared scratch state is exactly what "instances share no state" excludes
+	if g.Pkg != nil && e.World.InitPkgs[g.Pkg.Pkg.Path()] && !strings.Contains(e.Prog.Fset.Position(g.Pos()).Filename, "zz_verif_") {
+		o.LibGlobal = true
+	}
 	e.globals[g] = o
 	return o
 }
